@@ -518,16 +518,6 @@ class EventBus:
             if current_event is not None and current_event.event_id != event.event_id:
                 event.event_parent_id = current_event.event_id
 
-        # Track child events - if we're inside a handler, add this event to the handler's event_children list
-        # Only track if this is a NEW event (not forwarding an existing event)
-        current_handler_id = _current_handler_id_context.get()
-        if current_handler_id is not None and inside_handler_context.get():
-            current_event = _current_event_context.get()
-            if current_event is not None and current_handler_id in current_event.event_results:
-                # Only add as child if it's a different event (not forwarding the same event)
-                if event.event_id != current_event.event_id:
-                    current_event.event_results[current_handler_id].event_children.append(event)
-
         # Add this EventBus to the event_path if not already there
         if self.name not in event.event_path:
             # preserve identity of the original object instead of creating a new one, so that the original object remains awaitable to get the result
@@ -566,6 +556,9 @@ class EventBus:
                 self.event_queue.put_nowait(event)
                 # Only add to history after successfully queuing
                 self.event_history[event.event_id] = event
+                # Only record it as a child of the running handler once it is accepted: a rejected dispatch must leave
+                # no trace, or the would-be parent waits forever for a child that will never be processed
+                self._track_child_event(event)
                 logger.info(
                     f'🗣️ {self}.dispatch({event.event_type}) ➡️ {event.event_type}#{event.event_id[-4:]} (#{self.event_queue.qsize()} {event.event_status})'
                 )
@@ -587,6 +580,17 @@ class EventBus:
             self.cleanup_event_history()
 
         return event
+
+    def _track_child_event(self, event: 'BaseEvent[Any]') -> None:
+        # Track child events - if we're inside a handler, add this event to the handler's event_children list
+        # Only track if this is a NEW event (not forwarding an existing event)
+        current_handler_id = _current_handler_id_context.get()
+        if current_handler_id is not None and inside_handler_context.get():
+            current_event = _current_event_context.get()
+            if current_event is not None and current_handler_id in current_event.event_results:
+                # Only add as child if it's a different event (not forwarding the same event)
+                if event.event_id != current_event.event_id:
+                    current_event.event_results[current_handler_id].event_children.append(event)
 
     @overload
     async def expect(
